@@ -353,10 +353,11 @@ class LinEnv:
     """Controls how leaves are read: `subst` maps an access path to a Lin (forward substitution of single-assignment
     locals / symbolic stores); unknown calls become opaque atoms."""
 
-    def __init__(self, tu, subst=None, on_read=None):
+    def __init__(self, tu, subst=None, on_read=None, on_call=None):
         self.tu = tu
         self.subst = subst if subst is not None else {}
         self.on_read = on_read
+        self.on_call = on_call      # on_call(call node, env) -> Lin | None : value of a call (inlined helper), if known
 
 
 def lin(tu, e, env=None):
@@ -444,6 +445,10 @@ def lin(tu, e, env=None):
     if k == 'CallExpr':
         q = tu.sd(n).get('q', '')
         args = ks[1:]
+        if env.on_call is not None:
+            r = env.on_call(n, env)
+            if r is not None:
+                return r
         if q in ('std::min', 'std::max') and len(args) == 2:
             return Lin.atom((q[5:], frozenset((lin(tu, args[0], env), lin(tu, args[1], env)))))
         if q in ('std::move', 'std::forward') and len(args) == 1:
